@@ -107,40 +107,34 @@ theorem decodeLpc_wrap (xs errors coefs : List Int) (shift : Nat) (o : Nat) (ps 
 
 /-! ### `compute_error`, without any fit hypothesis -/
 
-/-- Whenever `compute_error` returns (the checked `i32` path panics on overflow), its result has one
-entry per sample, every entry is an `i32`, and the entries after the warm-up are the 32-bit reductions
-of the exact LPC residual — on BOTH paths, with no hypothesis on the parameters. -/
-theorem computeError_wrap (coefs : List Int) (shift : Nat) (xs errors : List Int)
-    (h : computeError coefs shift xs = some errors) :
+/-- Whenever `compute_error` returns (the checked `i32` path panics on overflow), whatever its flag, its
+buffer has one entry per sample, every entry is an `i32`, and the entries after the warm-up are the
+32-bit reductions of the exact LPC residual — on BOTH paths, with no hypothesis on the parameters. -/
+theorem computeError_wrap (coefs : List Int) (shift : Nat) (xs errors : List Int) {fits : Bool}
+    (h : computeError coefs shift xs = some (errors, fits)) :
     errors.length = xs.length ∧ (∀ e ∈ errors, fitsI32 e = true) ∧
     errors.drop coefs.length = (lpcResidual coefs shift xs).map wrap32 := by
+  obtain ⟨hl, hf⟩ := Strict.computeError_fits coefs shift xs errors h
+  refine ⟨hl, hf, ?_⟩
   unfold computeError at h
   simp only [] at h
   split at h
-  · obtain ⟨e1, e2⟩ := Strict.computeError32_spec coefs shift xs errors h
-    refine ⟨by rw [e1]; simp, e2, ?_⟩
-    have e3 : errors.drop coefs.length = (List.range' coefs.length (xs.length - coefs.length)).map (Strict.errE coefs shift xs) := by
+  · simp only [Option.map_eq_some_iff, Prod.mk.injEq] at h
+    obtain ⟨es, h, rfl, _⟩ := h
+    obtain ⟨e1, e2⟩ := Strict.computeError32_spec coefs shift xs es h
+    have e3 : es.drop coefs.length = (List.range' coefs.length (xs.length - coefs.length)).map (Strict.errE coefs shift xs) := by
       rw [e1, Strict.map_ite_drop]
     rw [Strict.lpcResidual_eq, List.map_map, e3]
     apply List.map_congr_left
     intro t ht
-    have hmem : Strict.errE coefs shift xs t ∈ errors.drop coefs.length := by
+    have hmem : Strict.errE coefs shift xs t ∈ es.drop coefs.length := by
       rw [e3]; exact List.mem_map.2 ⟨t, ht, rfl⟩
     have := (Strict.fitsI32_iff _).1 (e2 _ (List.mem_of_mem_drop hmem))
     exact (wrap32_id _ this.1 this.2).symm
-  · simp only [Option.some.injEq] at h
-    subst h
-    refine ⟨by simp [computeError64], ?_, ?_⟩
-    · intro e he
-      simp only [computeError64, List.mem_map, List.mem_range] at he
-      obtain ⟨t, _, rfl⟩ := he
-      split
-      · decide
-      · exact Strict.wrap32_fits _
-    · have : computeError64 coefs shift xs =
-          (List.range xs.length).map (fun t => if t < coefs.length then 0 else wrap32 (Strict.errE coefs shift xs t)) := rfl
-      rw [this, Strict.map_ite_drop, Strict.lpcResidual_eq, List.map_map]
-      rfl
+  · simp only [Option.some.injEq, Prod.mk.injEq] at h
+    obtain ⟨rfl, _⟩ := h
+    rw [Strict.computeError64_eq, Strict.map_ite_drop, Strict.lpcResidual_eq, List.map_map]
+    rfl
 
 end Wrap
 end FlacVerif
